@@ -936,11 +936,489 @@ def stream_bch(ctx):
     return st
 
 
+# ---------------------------------------------------------------- hardening: tensors, matrices, state, types, bands
+
+def tensor_entries(arr):
+    """numpy tensor -> [[index list, gq]] of the non-zero entries (exact)"""
+    import numpy
+    out = []
+    for idx in numpy.ndindex(*arr.shape):
+        v = arr[idx]
+        if v != 0:
+            out.append([list(idx), to_gq(v)])
+    return out
+
+
+def tensor_map(js):
+    return {tuple(i): from_gq(c) for i, c in js if from_gq(c) != (0, 0)}
+
+
+def interaction_fermion_jop(constant, one, two):
+    """the operator an InteractionOperator denotes, built from scratch:
+    constant + sum T[p,q] p^ q + sum V[p,q,r,s] p^ q^ r s"""
+    import numpy
+    jop = []
+    if constant != 0:
+        jop.append([[], to_gq(constant)])
+    for idx in numpy.ndindex(*one.shape):
+        if one[idx] != 0:
+            jop.append([[[idx[0], 1], [idx[1], 0]], to_gq(one[idx])])
+    for idx in numpy.ndindex(*two.shape):
+        if two[idx] != 0:
+            jop.append([[[idx[0], 1], [idx[1], 1], [idx[2], 0], [idx[3], 0]], to_gq(two[idx])])
+    return jop
+
+
+def small_band(rng):
+    """dyadic value of magnitude 1.2e-4 .. 9.5e-7 (a decade above the pruning threshold 1e-8)"""
+    return rng.choice([-3, -1, 1, 3]) * 2.0 ** (-rng.randint(13, 20)) / (3 if False else 1)
+
+
+def retype(rng, op):
+    """place numpy scalar coefficients directly into `.terms` (values stay exactly representable)"""
+    import numpy
+    for t in list(op.terms):
+        c = op.terms[t]
+        r = rng.random()
+        if isinstance(c, complex):
+            op.terms[t] = numpy.complex64(c) if r < 0.5 else numpy.complex128(c)
+        elif isinstance(c, float):
+            op.terms[t] = numpy.float32(c) if r < 0.5 else numpy.float64(c)
+        elif isinstance(c, int) and not isinstance(c, bool):
+            op.terms[t] = numpy.int64(c) if r < 0.7 else numpy.int32(c)
+    return op
+
+
+def stream_hc_ext(ctx):
+    import numpy
+    import scipy.sparse
+    of = ctx.of
+    st = Stream('hc-tensors-matrices', 'hermitian_conjugated of InteractionOperators (complex / purely imaginary constants, complex '
+                'non-Hermitian one- and two-body tensors, dtypes int64 / float32 / float64 / complex64 / complex128, C and '
+                'Fortran order), of scipy sparse matrices (csc / csr / coo) and dense arrays; unsupported types raise '
+                'TypeError; symbolic operators with numpy-scalar coefficients, coefficients of magnitude 1e-4 .. 1e-6 next to '
+                'O(1), purely imaginary coefficients and mode indices >= 257; implementation = Model exactly; oracle: '
+                'conjugate-transposed matrix elements of the operator built from the tensors by the checker, '
+                'entrywise conj-transpose for matrices; arguments not modified, results do not alias arguments, a '
+                'second call after an in-place edit of the first result equals the first; distinct = distinct inputs')
+    B = Batch(ctx, st)
+    rng = rng_for(ctx.seed, 'c07-hc-ext')
+    n_cases = budget(ctx.tier, 40, 500)
+    if ctx.drift:
+        n_cases = max(n_cases, 150)
+
+    def cval(kind):
+        if kind == 'imag':
+            return complex(0, rng.choice([-3, -1, 1, 2, 4]) / 2 ** rng.randint(0, 2))
+        if kind == 'real':
+            return float(rng.choice([-3, -1, 1, 2, 4]) / 2 ** rng.randint(0, 2))
+        return complex(rng.randint(-4, 4) / 2 ** rng.randint(0, 2), rng.choice([-3, -1, 1, 2]) / 2 ** rng.randint(0, 2))
+
+    for k in range(n_cases):
+        n = rng.randint(1, 3)
+        kind = rng.choice(['complex', 'complex', 'imag', 'real'])
+        dt = {'real': rng.choice(['float64', 'float32', 'int64']),
+              'imag': rng.choice(['complex128', 'complex64']),
+              'complex': rng.choice(['complex128', 'complex64'])}[kind]
+        one = numpy.zeros((n, n), dtype=complex)
+        two = numpy.zeros((n, n, n, n), dtype=complex)
+        for i in range(n):
+            for j in range(n):
+                if rng.random() < 0.6:
+                    one[i, j] = cval(kind)
+        for _ in range(rng.randint(0, 4)):
+            two[tuple(rng.randrange(n) for _ in range(4))] = cval(kind)
+        if dt == 'int64':
+            one, two = numpy.round(one.real * 4), numpy.round(two.real * 4)
+        if kind in ('real',):
+            one, two = one.real, two.real
+        one, two = one.astype(dt), two.astype(dt)
+        if rng.random() < 0.3:
+            one, two = numpy.asfortranarray(one), numpy.asfortranarray(two)
+        const = rng.choice([cval('complex'), cval('imag'), cval('complex'), 0.5, 2])
+        case = {'fn': 'hermitian_conjugated', 'cls': 'InteractionOperator', 'constant': [complex(const).real, complex(const).imag],
+                'dtype': dt, 'one': tensor_entries(one), 'two': tensor_entries(two)}
+        st.case(case)
+        st.count('interaction:%s:%s' % (kind, dt))
+        kindc, op = safe(of.InteractionOperator, const, one, two)
+        if kindc == 'err':
+            st.count('interaction:constructor-rejected')
+            continue
+        snap = (op.constant, op.one_body_tensor.copy(), op.two_body_tensor.copy())
+        kindc, H = safe(of.hermitian_conjugated, op)
+        if kindc == 'err':
+            st.violate('hermitian_conjugated(InteractionOperator) raised', case, H)
+            continue
+        if not isinstance(H, of.InteractionOperator):
+            st.violate('result is not an InteractionOperator', case, type(H).__name__)
+            continue
+        if not (op.constant == snap[0] and numpy.array_equal(op.one_body_tensor, snap[1])
+                and numpy.array_equal(op.two_body_tensor, snap[2])):
+            st.violate('hermitian_conjugated modified its argument', case, None)
+        h1, h2, hc_ = H.one_body_tensor.copy(), H.two_body_tensor.copy(), H.constant
+        # Spec, tensor level: conj constant; conj(T[q,p]); conj(V[s,r,q,p])
+        ok = (to_gq(hc_) == to_gq(complex(const).conjugate())
+              and numpy.array_equal(h1, numpy.conjugate(snap[1].T))
+              and numpy.array_equal(h2, numpy.conjugate(numpy.transpose(snap[2], (3, 2, 1, 0)))))
+        if not ok:
+            st.violate('hermitian_conjugated(InteractionOperator) is not (conj constant, conj-transposed tensors)', case,
+                       {'constant': str(hc_), 'one': tensor_entries(h1), 'two': tensor_entries(h2)})
+        # Model
+        def cbm(m, hc_=hc_, h1=h1, h2=h2, case=case):
+            if (from_gq(m['constant']) != from_gq(to_gq(hc_)) or tensor_map(m['one']) != tensor_map(tensor_entries(h1))
+                    or tensor_map(m['two']) != tensor_map(tensor_entries(h2))):
+                st.disagree('hermitian_conjugated(InteractionOperator)', case,
+                            {'constant': str(hc_), 'one': tensor_entries(h1), 'two': tensor_entries(h2)}, m)
+        B.ask({'op': 'c07.hc_interaction', 'constant': to_gq(const), 'one': case['one'], 'two': case['two']}, cbm)
+        # Spec, operator level: matrix of hc(op) is the conjugate transpose of the matrix of op
+        ja = interaction_fermion_jop(const, snap[1], snap[2])
+        jh = interaction_fermion_jop(hc_, h1, h2)
+
+        def cba(a, case=case):
+            st.count('oracle:adjoint-matrix')
+            if not a['eq']:
+                st.violate('matrix of hermitian_conjugated(InteractionOperator) is not the conjugate transpose', case, a)
+        B.check({'op': 'c07.adjoint', 'alg': 'fermion', 'n': n, 'a': ja, 'b': jh}, cba)
+        # aliasing and state
+        alias = numpy.shares_memory(H.one_body_tensor, op.one_body_tensor) or \
+            numpy.shares_memory(H.two_body_tensor, op.two_body_tensor)
+        if alias:
+            st.violate('hc-aliases-argument: tensors of hermitian_conjugated(InteractionOperator) share memory with the '
+                       'argument', case, {'dtype': dt, 'real_dtype': not numpy.iscomplexobj(op.one_body_tensor)})
+        else:
+            H.one_body_tensor += 1
+            H.two_body_tensor *= 3
+            H.constant = 99
+            if not (numpy.array_equal(op.one_body_tensor, snap[1]) and numpy.array_equal(op.two_body_tensor, snap[2])):
+                st.violate('editing the result of hermitian_conjugated changed the argument', case, None)
+            kindc, H2 = safe(of.hermitian_conjugated, op)
+            if kindc == 'err' or not (to_gq(H2.constant) == to_gq(hc_) and numpy.array_equal(H2.one_body_tensor, h1)
+                                      and numpy.array_equal(H2.two_body_tensor, h2)):
+                st.violate('second call after an in-place edit of the first result differs', case, None)
+        # involution
+        kindc, HH = safe(lambda: of.hermitian_conjugated(of.hermitian_conjugated(op)))
+        if kindc == 'err' or not (to_gq(HH.constant) == to_gq(const) and numpy.array_equal(HH.one_body_tensor, snap[1])
+                                  and numpy.array_equal(HH.two_body_tensor, snap[2])):
+            st.violate('hermitian_conjugated is not an involution on InteractionOperator', case, None)
+
+    # unsupported types: TypeError
+    one2 = numpy.eye(2)
+    for name, obj in (('PolynomialTensor', lambda: of.PolynomialTensor({(): 1j, (1, 0): one2})),
+                      ('DiagonalCoulombHamiltonian', lambda: of.DiagonalCoulombHamiltonian(one2, one2, 1.0)),
+                      ('MajoranaOperator', lambda: of.MajoranaOperator((0, 1), 1j)),
+                      ('str', lambda: 'x')):
+        kindc, r = safe(lambda: of.hermitian_conjugated(obj()))
+        st.count('unsupported:' + name)
+        if not (kindc == 'err' and r.startswith('TypeError')):
+            st.violate('hermitian_conjugated(%s) did not raise TypeError' % name, {'type': name}, str(r)[:120])
+
+    # matrices
+    for k in range(budget(ctx.tier, 30, 300)):
+        r_, c_ = rng.randint(1, 4), rng.randint(1, 4)
+        kind = rng.choice(['complex', 'imag', 'real'])
+        dt = {'real': rng.choice(['float64', 'float32', 'int64']), 'imag': 'complex128',
+              'complex': rng.choice(['complex128', 'complex64'])}[kind]
+        A = numpy.zeros((r_, c_), dtype=complex)
+        for i in range(r_):
+            for j in range(c_):
+                if rng.random() < 0.7:
+                    A[i, j] = cval(kind)
+        if dt == 'int64':
+            A = numpy.round(A.real * 4)
+        if kind == 'real':
+            A = A.real
+        A = A.astype(dt)
+        fmt = rng.choice(['dense', 'dense-F', 'csc', 'csr', 'coo'])
+        case = {'fn': 'hermitian_conjugated', 'cls': 'matrix:' + fmt, 'dtype': dt, 'a': [[str(x) for x in row] for row in A.tolist()]}
+        st.case(case)
+        st.count('matrix:%s:%s' % (fmt, dt))
+        if fmt == 'dense':
+            M = A.copy()
+        elif fmt == 'dense-F':
+            M = numpy.asfortranarray(A)
+        else:
+            M = getattr(scipy.sparse, fmt + '_matrix')(A)
+        kindc, H = safe(of.hermitian_conjugated, M)
+        if kindc == 'err':
+            st.violate('hermitian_conjugated(matrix) raised', case, H)
+            continue
+        Hd = H.toarray() if scipy.sparse.issparse(H) else numpy.asarray(H)
+        Md = M.toarray() if scipy.sparse.issparse(M) else numpy.asarray(M)
+        if not numpy.array_equal(Md, A):
+            st.violate('hermitian_conjugated modified its matrix argument', case, None)
+        if Hd.shape != (c_, r_) or not numpy.array_equal(Hd, numpy.conjugate(A.T)):
+            st.violate('hermitian_conjugated(matrix) is not the conjugate transpose', case, Hd.tolist())
+        if scipy.sparse.issparse(M) != scipy.sparse.issparse(H):
+            st.violate('hermitian_conjugated changed sparse <-> dense', case, type(H).__name__)
+    B.flush()
+
+    # symbolic operators: numpy scalar coefficients, small bands, purely imaginary, large mode indices
+    for cls in ('fermion', 'qubit', 'boson', 'quad'):
+        C = cls_of(of, cls)
+        for k in range(budget(ctx.tier, 25, 300)):
+            variant = rng.choice(['numpy-scalars', 'small-band', 'imaginary', 'big-index'])
+            small = cls in ('boson', 'quad')
+            n_modes = 2 if small else 3
+            op = C()
+            for _ in range(rng.randint(1, 4)):
+                ln = rng.randint(0, 3)
+                t = tuple((rng.randrange(n_modes), rng.choice(ACTIONS[cls])) for _ in range(ln))
+                if variant == 'small-band' and rng.random() < 0.5:
+                    c = small_band(rng) * (1j if rng.random() < 0.3 else 1)
+                elif variant == 'imaginary':
+                    c = complex(0, rng.choice([-3, -1, 1, 2]) / 2 ** rng.randint(0, 2))
+                else:
+                    c = dyadic(rng, max_num=4, max_pow=2)
+                op += C(t, c)
+            mapping = None
+            if variant == 'big-index':
+                mapping = {0: 257 + rng.randint(0, 3), 1: 300 + rng.randint(0, 50), 2: 1000 + rng.randint(0, 24)}
+                big_op = C()
+                for t, c in op.terms.items():
+                    big_op += C(tuple((int(str(mapping[i])), a) for i, a in t), c)
+                op_small, op = op, big_op
+            if variant == 'numpy-scalars':
+                retype(rng, op)
+            ja = enc_op(cls, op.terms)
+            case = {'fn': 'hermitian_conjugated', 'cls': cls, 'variant': variant, 'a': ja,
+                    'coefficient_types': sorted({type(c).__name__ for c in op.terms.values()})}
+            st.case(case)
+            st.count('symbolic:%s:%s' % (cls, variant))
+            before = canon_op_json(ja)
+            kindc, H = safe(of.hermitian_conjugated, op)
+            if kindc == 'err':
+                st.violate('hermitian_conjugated raised', case, H)
+                continue
+            if canon_op_json(enc_op(cls, op.terms)) != before:
+                st.violate('hermitian_conjugated modified its argument', case, None)
+            if H is op or H.terms is op.terms:
+                st.violate('hermitian_conjugated returned its argument', case, None)
+            jh = enc_op(cls, H.terms)
+            B.ask({'op': 'c07.hc', 'cls': cls, 'a': ja}, compare_op(st, 'hermitian_conjugated terms', case, jh, bits=80))
+            # state: edit the result in place, call again
+            H *= 3
+            H.terms.clear()
+            kindc, H2 = safe(of.hermitian_conjugated, op)
+            if kindc == 'err' or canon_op_json(enc_op(cls, H2.terms)) != canon_op_json(jh) \
+                    or canon_op_json(enc_op(cls, op.terms)) != before:
+                st.violate('second call after an in-place edit of the first result differs', case, None)
+            # oracle on small registers (big indices: order-preserving relabelling back to 0, 1, 2)
+            if mapping is not None:
+                inv = {v: k_ for k_, v in mapping.items()}
+                ja_o = [[[[inv[i], a] for i, a in t], c] for t, c in ja]
+                jh_o = [[[[inv[i], a] for i, a in t], c] for t, c in jh]
+            else:
+                ja_o, jh_o = ja, jh
+            rev = []
+            for t, c in ja_o:
+                rt = [[i, (1 - a) if cls in ('fermion', 'boson') else a] for i, a in reversed(t)]
+                rev.append([rt, [c[0], c[1], -c[2], c[3]]])
+            B.check({'op': 'spec.eq', 'alg': ALG[cls], 'n': n_modes, 'd': 3, 'lhs': leaf(jh_o), 'rhs': leaf(rev)},
+                    expect_eq(st, 'hermitian_conjugated(A) is not the adjoint of A', case))
+    B.flush()
+    return st
+
+
+def stream_state(ctx):
+    """(S) state / aliasing and (T) / (B) variants for the commutator family and the predicates"""
+    of = ctx.of
+    F, Q = of.FermionOperator, of.QubitOperator
+    from openfermion.circuits.trotter import trotter_error as te
+    from openfermion.transforms.opconversions.commutator_diagonal_coulomb_operator import (
+        commutator_ordered_diagonal_coulomb_with_two_body_operator as dcc)
+    st = Stream('state-types-bands', 'commutator, anticommutator, double_commutator (generic and hopping), normal_ordered, the '
+                'diagonal-Coulomb commutator, bch_expand and error_operator: arguments are not modified, the result is a '
+                'new object, and a second call after an in-place edit of the first result gives the first result again; '
+                'commutators with numpy-scalar coefficients, coefficients of magnitude 1e-4 .. 1e-6 next to O(1) (one '
+                'operand), purely imaginary coefficients, both operand orders, mode indices >= 257 (compared with the '
+                'Model and, relabelled order-preservingly, with the Spec); dual-basis and Pauli predicates on indices '
+                '>= 257 built as fresh int objects: same answer as on the relabelled small indices; distinct = distinct inputs')
+    B = Batch(ctx, st)
+    rng = rng_for(ctx.seed, 'c07-state')
+    n_cases = budget(ctx.tier, 25, 300)
+    if ctx.drift:
+        n_cases = max(n_cases, 100)
+
+    def snap(ops):
+        return [(type(o), [(t, to_gq(c), type(c).__name__) for t, c in o.terms.items()]) for o in ops]
+
+    def pure_call(name, cls, f, ops, extra=()):
+        case = {'fn': name, 'args': [enc_op(cls, o.terms) for o in ops]}
+        st.case(case)
+        st.count('state:' + name)
+        before = snap(ops)
+        kind, R = safe(f, *ops, *extra)
+        if kind == 'err':
+            st.violate(name + ' raised', case, R)
+            return
+        if snap(ops) != before:
+            st.violate(name + ' modified an argument', case, None)
+        if any(R is o for o in ops) or any(getattr(R, 'terms', None) is o.terms for o in ops):
+            st.violate(name + ' returned (the dictionary of) an argument', case, None)
+        first = canon_op_json(enc_op(cls, R.terms))
+        R *= 2
+        R.terms[()] = 77
+        kind, R2 = safe(f, *ops, *extra)
+        if kind == 'err' or canon_op_json(enc_op(cls, R2.terms)) != first or snap(ops) != before:
+            st.violate(name + ': second call after an in-place edit of the first result differs', case, None)
+
+    def dual_op(n):
+        k = rng.random()
+        i, j = rng.sample(range(n), 2)
+        c = dyadic(rng, max_num=3, max_pow=1)
+        if k < 0.3:
+            return F(((i, 1), (i, 0)), c)
+        if k < 0.6:
+            return F(((i, 1), (j, 0)), c) + F(((j, 1), (i, 0)), c)
+        return F(((i, 1), (j, 1), (i, 0), (j, 0)), c)
+
+    for k in range(n_cases):
+        a, b, c = (rand_op(rng, of, 'fermion', rng.randint(1, 3), 3, 3) for _ in range(3))
+        pure_call('commutator', 'fermion', of.commutator, [a, b])
+        pure_call('anticommutator', 'fermion', of.anticommutator, [a, b])
+        pure_call('normal_ordered', 'fermion', of.normal_ordered, [a])
+        pure_call('double_commutator', 'fermion', of.double_commutator, [a, b, c])
+        qa, qb = (rand_op(rng, of, 'qubit', rng.randint(1, 3), 3, 3) for _ in range(2))
+        pure_call('commutator', 'qubit', of.commutator, [qa, qb])
+        pure_call('bch_expand(order=2)', 'qubit', lambda x, y: of.bch_expand(x, y, order=2), [qa, qb])
+        i, j, l = rng.sample(range(4), 3)
+        t2, t3 = dyadic(rng, max_num=3, max_pow=1), dyadic(rng, max_num=3, max_pow=1)
+        h2 = F(((i, 1), (j, 0)), t2) + F(((j, 1), (i, 0)), t2)
+        h3 = F(((j, 1), (l, 0)), t3) + F(((l, 1), (j, 0)), t3)
+        pure_call('double_commutator(hopping)', 'fermion',
+                  lambda x, y, z: of.double_commutator(x, y, z, {i, j}, {j, l}, True, True), [dual_op(4), h2, h3])
+        da = F(((i, 1), (j, 0)), t2) + F(((2, 1), (2, 0)), t3) + F(((3, 1), (1, 1), (3, 0), (1, 0)), 0.5)
+        db = F(((l, 1), (i, 0)), t3) + F(((3, 1), (2, 1), (1, 0), (0, 0)), 1.5)
+        pure_call('commutator_ordered_diagonal_coulomb_with_two_body_operator', 'fermion', dcc, [da, db])
+        terms = [Q(((0, 'X'), (1, 'Y')), 0.5), Q(((1, 'Z'),), 1.0), Q(((0, 'Y'), (2, 'X')), -0.25)]
+        rng.shuffle(terms)
+        before = snap(terms)
+        kind, E = safe(te.error_operator, terms)
+        if kind == 'ok':
+            first = {t: complex(cv) for t, cv in E.terms.items()}
+            E *= 5
+            kind, E2 = safe(te.error_operator, terms)
+            if kind == 'err' or {t: complex(cv) for t, cv in E2.terms.items()} != first or snap(terms) != before:
+                st.violate('error_operator: arguments modified or second call differs', {'fn': 'error_operator'}, None)
+        else:
+            st.violate('error_operator raised', {'fn': 'error_operator'}, E)
+
+    # commutators: numpy scalars / small band / imaginary / big indices
+    for cls in ('fermion', 'qubit'):
+        C = cls_of(of, cls)
+        for k in range(n_cases):
+            variant = rng.choice(['numpy-scalars', 'small-band', 'imaginary', 'big-index'])
+            ops = []
+            for which in range(2):
+                op = C()
+                for _ in range(rng.randint(1, 3)):
+                    t = tuple((rng.randrange(3), rng.choice(ACTIONS[cls])) for _ in range(rng.randint(0, 3)))
+                    if variant == 'small-band' and which == 0 and rng.random() < 0.6:
+                        cc = small_band(rng)
+                    elif variant == 'imaginary':
+                        cc = complex(0, rng.choice([-3, -1, 1, 2]) / 2 ** rng.randint(0, 2))
+                    else:
+                        cc = dyadic(rng, max_num=4, max_pow=2)
+                    op += C(t, cc)
+                ops.append(op)
+            if rng.random() < 0.5:
+                ops.reverse()
+            mapping = None
+            if variant == 'big-index':
+                mapping = {0: 257 + rng.randint(0, 3), 1: 300 + rng.randint(0, 50), 2: 1000 + rng.randint(0, 24)}
+                bigs = []
+                for op in ops:
+                    bo = C()
+                    for t, cc in op.terms.items():
+                        bo += C(tuple((int(str(mapping[i])), a) for i, a in t), cc)
+                    bigs.append(bo)
+                ops = bigs
+            if variant == 'numpy-scalars':
+                for op in ops:
+                    retype(rng, op)
+            anti = rng.random() < 0.3
+            ja, jb = enc_op(cls, ops[0].terms), enc_op(cls, ops[1].terms)
+            case = {'fn': 'anticommutator' if anti else 'commutator', 'cls': cls, 'variant': variant, 'a': ja, 'b': jb}
+            st.case(case)
+            st.count('%s:%s:%s' % (case['fn'], cls, variant))
+            kind, R = safe(of.anticommutator if anti else of.commutator, ops[0], ops[1])
+            if kind == 'err':
+                st.violate(case['fn'] + ' raised', case, R)
+                continue
+            jr = enc_op(cls, R.terms)
+            B.ask({'op': 'c07.comm', 'cls': cls, 'a': ja, 'b': jb, 'anti': anti},
+                  compare_op(st, case['fn'] + ' terms', case, jr, bits=80))
+            if mapping is not None:
+                inv = {v: k_ for k_, v in mapping.items()}
+
+                def down(j):
+                    return [[[[inv[i], a] for i, a in t], c] for t, c in j]
+                ja, jb, jr = down(ja), down(jb), down(jr)
+            la, lb = leaf(ja), leaf(jb)
+            rhs = ['add', ['mul', la, lb], ['mul', lb, la]] if anti else comm_expr(la, lb)
+            B.check({'op': 'spec.eq', 'alg': ALG[cls], 'n': 3, 'lhs': leaf(jr), 'rhs': rhs},
+                    expect_eq(st, case['fn'] + ' does not denote AB -/+ BA', case))
+
+    # predicates on large indices (fresh int objects): relabelling invariance + Model
+    def fresh(v):
+        return int(str(v))
+    for k in range(budget(ctx.tier, 150, 1500)):
+        modes_small = list(range(4))
+        base = rng.choice([257, 300, 512, 1000, 70000])
+        mp = {m: base + 3 * m + rng.randint(0, 2) for m in modes_small}
+
+        def rt():
+            r = rng.random()
+            p, q = rng.sample(modes_small, 2)
+            return ((p, 1), (p, 0)) if r < 0.3 else ((p, 1), (q, 0)) if r < 0.65 else ((p, 1), (q, 1), (p, 0), (q, 0))
+        ts = [rt() for _ in range(3)]
+        tb = [tuple((fresh(mp[i]), a) for i, a in t) for t in ts]
+        case = {'fn': 'dual-basis predicates (large indices)', 'terms': [enc_term('fermion', t) for t in tb]}
+        st.case(case)
+        st.count('predicates:large-index')
+        r_small = safe(lambda: (bool(of.trivially_commutes_dual_basis(F(ts[1]), F(ts[2]))),
+                                bool(of.trivially_double_commutes_dual_basis(F(ts[0]), F(ts[1]), F(ts[2])))))
+        r_big = safe(lambda: (bool(of.trivially_commutes_dual_basis(F(tb[1]), F(tb[2]))),
+                              bool(of.trivially_double_commutes_dual_basis(F(tb[0]), F(tb[1]), F(tb[2])))))
+        if r_small[0] == 'err' or r_big[0] == 'err':
+            st.violate('dual-basis predicate raised', case, [r_small, r_big])
+            continue
+        if r_small[1] != r_big[1]:
+            st.violate('dual-basis predicates depend on the mode labels (order-preserving relabelling changes the answer)',
+                       case, {'small': r_small[1], 'large': r_big[1]})
+
+        def cb1(m, r=r_big[1][0], case=case):
+            if m != r:
+                st.disagree('trivially_commutes_dual_basis (large indices)', case, r, m)
+
+        def cb2(m, r=r_big[1][1], case=case):
+            if m != r:
+                st.disagree('trivially_double_commutes_dual_basis (large indices)', case, r, m)
+        jt = case['terms']
+        B.ask({'op': 'c07.dual_tc', 'a': jt[1], 'b': jt[2]}, cb1)
+        B.ask({'op': 'c07.dual_tdc', 'a': jt[0], 'b': jt[1], 'c': jt[2]}, cb2)
+        # Pauli predicates
+        qs = sorted(rng.sample(range(5), rng.randint(1, 4)))
+        qs2 = sorted(rng.sample(range(5), rng.randint(1, 4)))
+        pa = tuple((q, rng.choice('XYZ')) for q in qs)
+        pb = tuple((q, rng.choice('XYZ')) for q in qs2)
+        qm = {q: base + 2 * q + rng.randint(0, 1) for q in range(5)}
+        pab = tuple((fresh(qm[q]), a) for q, a in pa)
+        pbb = tuple((fresh(qm[q]), a) for q, a in pb)
+        rs = safe(lambda: (bool(te.trivially_commutes(Q(pa), Q(pb))), bool(te.trivially_double_commutes(Q(pb), Q(pa), Q(pb)))))
+        rb = safe(lambda: (bool(te.trivially_commutes(Q(pab), Q(pbb))), bool(te.trivially_double_commutes(Q(pbb), Q(pab), Q(pbb)))))
+        if rs[0] == 'err' or rb[0] == 'err' or rs[1] != rb[1]:
+            st.violate('Pauli predicates depend on the qubit labels', {'fn': 'trivially_commutes (large indices)',
+                       'a': enc_term('qubit', pab), 'b': enc_term('qubit', pbb)}, [rs, rb])
+    B.flush()
+    return st
+
+
 # ---------------------------------------------------------------- entry points
 
 def run(ctx):
     return [stream_hc(ctx), stream_comm(ctx), stream_pauli(ctx), stream_dual(ctx), stream_double(ctx),
-            stream_dc(ctx), stream_bch(ctx)]
+            stream_dc(ctx), stream_bch(ctx), stream_hc_ext(ctx), stream_state(ctx)]
 
 
 def _terms_of(v):
@@ -955,6 +1433,9 @@ def classify(v):
     """F07: trivially_double_commutes_dual_basis answers True although [a,[b,c]] != 0, for b a one-mode number
     operator p^ p and c a hopping term acting on p (the rule `sum(1 for i in modes_touched_b if i in
     modes_touched_c) > 1` counts the repeated mode of b twice)."""
+    if v.get('what', '').startswith('hc-aliases-argument'):
+        # F07b: only real-dtype tensors (ndarray.conj() of a real array returns the array itself)
+        return 'F07b' if (v.get('detail') or {}).get('real_dtype') else None
     if not v.get('what', '').startswith('tdc-dual-wrong-true'):
         return None
     t = _terms_of(v)
@@ -965,9 +1446,17 @@ def classify(v):
 
 
 def probe_known(ctx, k):
+    of = ctx.of
+    if k.get('id') == 'F07b':
+        import numpy
+        try:
+            op = of.InteractionOperator(0.0, numpy.eye(2), numpy.zeros((2, 2, 2, 2)))
+            h = of.hermitian_conjugated(op)
+            return bool(numpy.shares_memory(h.one_body_tensor, op.one_body_tensor))
+        except Exception:
+            return False
     if k.get('id') != 'F07':
         return False
-    of = ctx.of
     F = of.FermionOperator
     a, b, c = F('0^ 0'), F('0^ 0'), F('0^ 1')
     try:
